@@ -34,7 +34,8 @@ def _lookup(fsid):
     return _REG[fsid]
 
 
-FAULT_KINDS = ('eio', 'enospc_partial', 'eio_close', 'crash', 'interrupt')
+FAULT_KINDS = ('eio', 'enospc_partial', 'eio_partial', 'eio_close', 'crash',
+               'interrupt')
 
 _PKG_FILES = ('api.py', 'writer.py', 'core.py', 'util.py', 'schema.py',
               'dataframe.py', 'json.py', 'compression.py', 'encoding.py',
@@ -132,8 +133,11 @@ class SimFile:
             part = b[:cut]
             self._apply(part)
             ev[3]['applied'] = len(part)
-            raise OSError(errno.ENOSPC, 'injected ENOSPC after %d of %d bytes'
-                          % (len(part), len(b)), self.path)
+            eno = errno.EIO if ev[3].get('fault') == 'eio_partial' \
+                else errno.ENOSPC
+            raise OSError(eno, 'injected %s after %d of %d bytes'
+                          % (errno.errorcode[eno], len(part), len(b)),
+                          self.path)
         self._apply(b)
         return len(b)
 
@@ -352,11 +356,14 @@ class SimFS(AbstractFileSystem):
             self.crashed = True
             raise SimCrash('injected crash at call %d (%s %s)'
                            % (k, ev[1], ev[2]))
-        if kind == 'enospc_partial':
+        if kind in ('enospc_partial', 'eio_partial'):
+            # the write stores a prefix of its buffer, then fails: disk full,
+            # or a transient I/O error (the errno a caller may retry on)
             if can_partial:
                 return self.fault_rng.randrange(0, nbytes) if nbytes else 0
-            raise OSError(errno.ENOSPC, 'injected ENOSPC at call %d' % k,
-                          ev[2])
+            raise OSError(errno.ENOSPC if kind == 'enospc_partial'
+                          else errno.EIO, 'injected %s at call %d'
+                          % (kind, k), ev[2])
         raise OSError(errno.EIO, 'injected EIO at call %d' % k, ev[2])
 
     def begin_op(self, plan=None, double=False, fault_rng=None, rplan=None,
